@@ -136,9 +136,14 @@ def two_loop(facts, q, spec, res):
     else:
         res.violation(R1, f, q, "shape", outer["l"][1], "loops cover targets [%s,%s) sources [%s,%s) (%s,%s); expected %s" % (o_lo, o_hi, i_lo, i_hi, oop, iop, want))
     # ---- clause 2: per-pair update
-    blk.exec(ibody)
-    for s in post:
-        blk.exec(s)
+    try:
+        blk.exec(ibody)
+        for s in post:
+            blk.exec(s)
+    except algebra.DataDependent as e:
+        res.violation("C20.2.pair-law", f, q, "data-dependent", e.node["l"][1],
+                      "the per-pair contribution is not the pairwise law for every input: %s - pairs satisfying the condition get a different (or no) contribution" % e.text)
+        return
     # any accumulator that was not flushed
     sd, td = pn[spec["sdata"]], pn[spec["tdata"]]
 
@@ -165,7 +170,12 @@ def pair_routine(facts, q, spec, res):
     fn = facts.fn(q)
     blk = Block(facts, fn)
     pn = [p["name"] for p in fn["params"]]
-    blk.exec(tbf.body(fn))
+    try:
+        blk.exec(tbf.body(fn))
+    except algebra.DataDependent as e:
+        res.violation("C20.2.pair-law", tbf.rel(facts.path_of(fn)), q, "data-dependent", e.node["l"][1],
+                      "the per-pair contribution is not the pairwise law for every input: %s" % e.text)
+        return
     xs = [sympy.Symbol(pn[i], real=True) for i in spec["s"][:3]]
     qs = sympy.Symbol(pn[spec["s"][3]], real=True)
     xt = [sympy.Symbol(pn[i], real=True) for i in spec["t"][:3]]
